@@ -1,7 +1,7 @@
 /-
 C18 — property theorems.
 -/
-import Otel.C18.Collect
+import Otel.C18.Caches
 namespace Otel.C18
 open Otel Otel.C18
 
@@ -586,7 +586,7 @@ theorem target_info_as_configured (esc : Bytes → Bytes) (sc : Scenario)
       (targetInfoMetric esc sc).labels = getAttrs esc sc.cfg.legacy sc.res ∧
       (targetInfoMetric esc sc).payload = OutPayload.num 4 ∧
       ∀ e ∈ rest, e.name ≠ b "target_info" := by
-  refine ⟨collectScopes esc sc (if sc.resConst then getAttrs esc sc.cfg.legacy sc.res else []) [] sc.scopes, rfl, rfl, rfl, ?_⟩
+  refine ⟨collectScopes esc sc (if sc.resConst then getAttrs esc sc.cfg.legacy (constRes sc) else []) [] sc.scopes, rfl, rfl, rfl, ?_⟩
   intro e he
   rcases collectScopes_provenance esc sc _ sc.scopes [] e he with ⟨_, s, _, hs⟩ | ⟨⟨s, hs, i, hi, p, _, hf⟩, _⟩
   · rw [(scopeInfo_fields hs).1]; decide
@@ -602,7 +602,7 @@ theorem scope_info_as_configured (esc : Bytes → Bytes) (sc : Scenario)
     (sc.noScope = true → ∀ e ∈ collect esc sc, e.name ≠ b "otel_scope_info") ∧
     (sc.noScope = false → ∀ s ∈ sc.scopes, ∀ si, scopeInfoMetric esc sc.cfg.legacy s = some si →
       si ∈ collect esc sc ∧ si.payload = OutPayload.num 4 ∧
-      si.labels = getAttrs esc sc.cfg.legacy [(scopeNameLabel, s.name), (scopeVersionLabel, s.version)]) := by
+      si.labels = getAttrs esc sc.cfg.legacy (scopeInfoAttrs s.key)) := by
   constructor
   · intro hns e he
     rcases collect_provenance esc sc e he with ⟨_, h⟩ | ⟨h, _⟩ | ⟨s, hs, i, hi, p, _, hf⟩
@@ -642,7 +642,7 @@ theorem collect_all_legal (esc : Bytes → Bytes) (sc : Scenario) : ∀ e ∈ co
       exact hdesc _ _ hc.2
     · simp at h
   · rcases collectScopes_provenance esc sc _ sc.scopes [] e h with ⟨_, s, _, hs⟩ | ⟨⟨s, _, i, _, p, _, name, help, _, hp⟩, _⟩
-    · unfold scopeInfoMetric at hs
+    · unfold scopeInfoMetric scopeInfoOfKey at hs
       simp only at hs
       split at hs
       · rename_i hc
@@ -663,7 +663,7 @@ theorem collect_help_type_consistent (esc : Bytes → Bytes) (sc : Scenario)
       (e.name = b "target_info" ∧ e.help = b "Target metadata" ∧ e.typ = MType.gauge) ∨
       (e.name = b "otel_scope_info" ∧ e.help = b "Instrumentation Scope metadata" ∧ e.typ = MType.gauge) ∨
       (e.name ≠ b "target_info" ∧ e.name ≠ b "otel_scope_info" ∧
-        (scopesFams esc sc (if sc.resConst then getAttrs esc sc.cfg.legacy sc.res else []) [] sc.scopes).find?
+        (scopesFams esc sc (if sc.resConst then getAttrs esc sc.cfg.legacy (constRes sc) else []) [] sc.scopes).find?
           (fun f => f.name == e.name) = some ⟨e.name, e.help, e.typ⟩) := by
     intro e he
     unfold collect at he
@@ -755,6 +755,201 @@ theorem scrape_independent_of_other_scrapes (esc : Bytes → Bytes) (a : Nat) :
       have : (a == id) = false := by simp [Ne.symm hid]
       simp only [this, Bool.false_eq_true, if_false]
       exact hw
+
+/-! ### the collector's caches across scrapes (scope info, invalid scopes, target info, resource labels) -/
+
+/-- Caches are transparent: in every cache state that satisfies the invariant `CInv` (every state reachable from New(),
+`caches_invariant_reachable`), Collect with all of the collector's caches — targetInfo / disableTargetInfo /
+resourceKeyVals / scopeInfos / scopeInfosInvalid — sends exactly what the cache-free reading `collectFrom` sends (which
+only threads the family table), leaves the same family table, and re-establishes the invariant. -/
+theorem collect_caches_transparent (esc : Bytes → Bytes) (sc : Scenario) (st : CState) (h : CInv esc sc st) :
+    (collectS esc sc st).1 = (collectFrom esc sc st.fams).1 ∧
+    (collectS esc sc st).2.fams = (collectFrom esc sc st.fams).2 ∧
+    CInv esc sc (collectS esc sc st).2 := collectS_spec esc sc st h
+
+/-- The invariant holds after New() and is preserved by every scrape of the sequence — registered or not, whatever
+scopes, instruments and data the SDK holds at that moment (options, scheme and resource are the exporter's constants). -/
+theorem caches_invariant_reachable (esc : Bytes → Bytes) (base : Scenario) :
+    CInv esc base (CState.init base) ∧
+    ∀ st x, CInv esc base st → CInv esc base (stepS esc base st x).2 := by
+  refine ⟨CInv.init esc base, ?_⟩
+  intro st x h
+  cases x with
+  | notRegistered => exact h
+  | data scopes => exact CInv.ofScopes scopes (collectS_spec esc _ st (h.withScopes scopes)).2.2
+
+/-- Refinement over whole sequences: successive scrapes of one exporter with all caches (`runSeq`, from the state New()
+creates) send, scrape by scrape, what the cache-free reading sends (`runSeqRef`). In particular a scope created after
+earlier scrapes gets its own otel_scope_info series, and a cached one is the one createScopeInfoMetric would build. The
+seeded change C18-12 (cache keyed by name and version only) breaks exactly this on the real code. -/
+theorem runSeq_refines (esc : Bytes → Bytes) (base : Scenario) (steps : List Step) :
+    runSeq esc base (CState.init base) steps = runSeqRef esc base [] steps :=
+  runSeq_spec esc base steps _ (CInv.init esc base)
+
+/-- Scrape k is independent of which scopes (and which resource-derived metrics) earlier scrapes saw: two reachable
+cache states with the same family table send the same for the same data. -/
+theorem scrape_independent_of_scope_history (esc : Bytes → Bytes) (sc : Scenario) (st₁ st₂ : CState)
+    (h₁ : CInv esc sc st₁) (h₂ : CInv esc sc st₂) (hf : st₁.fams = st₂.fams) :
+    (collectS esc sc st₁).1 = (collectS esc sc st₂).1 ∧ (collectS esc sc st₁).2.fams = (collectS esc sc st₂).2.fams := by
+  obtain ⟨a1, a2, _⟩ := collectS_spec esc sc st₁ h₁
+  obtain ⟨c1, c2, _⟩ := collectS_spec esc sc st₂ h₂
+  rw [a1, a2, c1, c2, hf]; exact ⟨rfl, rfl⟩
+
+/-- The first registered scrape of a fresh exporter is the single-scrape model `collect` all other theorems are about. -/
+theorem first_scrape_is_collect (esc : Bytes → Bytes) (sc : Scenario) :
+    (collectS esc sc (CState.init sc)).1 = collect esc sc :=
+  (collectS_spec esc sc _ (CInv.init esc sc)).1
+
+/-- otel_scope_info in EVERY scrape of a sequence: with scope info enabled, whatever the caches hold (any reachable
+state), every scope of the moment whose info metric can be created has it in what is sent — value 1, labels = the
+sanitised/merged attribute set NewSet(scope attributes ++ otel_scope_name ++ otel_scope_version). -/
+theorem scope_info_every_scrape (esc : Bytes → Bytes) (sc : Scenario) (st : CState) (h : CInv esc sc st)
+    (hns : sc.noScope = false) :
+    ∀ s ∈ sc.scopes, ∀ si, scopeInfoMetric esc sc.cfg.legacy s = some si →
+      si ∈ (collectS esc sc st).1 ∧ si.payload = OutPayload.num 4 ∧
+      si.labels = getAttrs esc sc.cfg.legacy (scopeInfoAttrs s.key) := by
+  intro s hs si hsi
+  refine ⟨?_, (scopeInfo_fields hsi).2.2.2.1, (scopeInfo_fields hsi).2.2.2.2⟩
+  rw [(collectS_spec esc sc st h).1]
+  unfold collectFrom
+  exact List.mem_append_right _ (collectScopes_scopeinfo_mem esc sc _ hns sc.scopes st.fams s hs si hsi)
+
+/-- What the otel_scope_info series of a scope says (attribute.NewSet = last value wins): otel_scope_name is the scope's
+name and otel_scope_version its version — also when the scope carries attributes with these keys — and every other key
+carries the scope attribute of that key. In the UTF-8 scheme these are the labels themselves (`getAttrs` is the
+identity); the schema URL is not exposed. -/
+theorem scope_info_labels (k : ScopeKey) :
+    (scopeInfoAttrs k).lookup scopeNameLabel = some k.name ∧
+    (scopeInfoAttrs k).lookup scopeVersionLabel = some k.version ∧
+    ∀ x, x ≠ scopeNameLabel → x ≠ scopeVersionLabel → (scopeInfoAttrs k).lookup x = k.attrs.reverse.lookup x :=
+  scopeInfoAttrs_lookup k
+
+/-- One series per distinct scope identity: two scopes whose otel_scope_info attribute sets coincide have the same name,
+the same version and the same attributes on every other key — so scopes that differ in name, version or a scope attribute
+never share a series (they may differ in the schema URL only: that collision is real, see the remark in RESULTS.md). -/
+theorem scope_info_distinct (k₁ k₂ : ScopeKey) (h : scopeInfoAttrs k₁ = scopeInfoAttrs k₂) :
+    k₁.name = k₂.name ∧ k₁.version = k₂.version ∧
+    ∀ x, x ≠ scopeNameLabel → x ≠ scopeVersionLabel → k₁.attrs.reverse.lookup x = k₂.attrs.reverse.lookup x := by
+  obtain ⟨a1, a2, a3⟩ := scopeInfoAttrs_lookup k₁
+  obtain ⟨c1, c2, c3⟩ := scopeInfoAttrs_lookup k₂
+  rw [h] at a1 a2 a3
+  refine ⟨?_, ?_, ?_⟩
+  · rw [a1] at c1; exact (Option.some.inj c1)
+  · rw [a2] at c2; exact (Option.some.inj c2)
+  · intro x h1 h2; rw [← a3 x h1 h2, c3 x h1 h2]
+
+/-- The scope-info cache never hands out another scope's metric: in a reachable state the lookup for a scope returns
+createScopeInfoMetric of exactly that scope identity, and a scope remembered as invalid is one whose info metric cannot
+be created. -/
+theorem scope_cache_sound (esc : Bytes → Bytes) (sc : Scenario) (st : CState) (h : CInv esc sc st) (s : Scope) :
+    (scopeInfoCached esc sc.cfg.legacy st s).2 = scopeInfoMetric esc sc.cfg.legacy s :=
+  (scopeInfoCached_spec esc sc.cfg.legacy st s h.scopes).1
+
+/-- An instrumentation scope whose info metric cannot be created (scope info enabled, inadmissible scope attributes) is
+skipped as a whole and is invisible to everything else: what the scope loop sends, and the family table it leaves, are
+those of the scope list without it — wherever it stands in the (map-ordered) list, whatever the family table is. With
+`collect_caches_transparent` this holds in every reachable cache state: a scope remembered as invalid never poisons
+another scope with the same name and version. -/
+theorem skipped_scope_invisible (esc : Bytes → Bytes) (sc : Scenario) (resKV : List KV) (s : Scope)
+    (hs : scopeSkipped esc sc s = true) :
+    ∀ (pre post : List Scope) (fams : List Fam),
+      collectScopes esc sc resKV fams (pre ++ s :: post) = collectScopes esc sc resKV fams (pre ++ post) ∧
+      scopesFams esc sc resKV fams (pre ++ s :: post) = scopesFams esc sc resKV fams (pre ++ post) := by
+  intro pre
+  induction pre with
+  | nil =>
+    intro post fams
+    simp only [List.nil_append]
+    constructor
+    · rw [collectScopes]; simp [hs]
+    · rw [scopesFams]; simp [hs]
+  | cons x pre ih =>
+    intro post fams
+    simp only [List.cons_append]
+    constructor
+    · rw [collectScopes, collectScopes]
+      split
+      · exact (ih post fams).1
+      · simp only [(ih post _).1]
+    · rw [scopesFams, scopesFams]
+      split
+      · exact (ih post fams).2
+      · exact (ih post _).2
+
+/-! ### options -/
+
+private theorem newConfig_fold_flags (esc : Bytes → Bytes) (legacy : Bool) : ∀ (opts : List Opt) (c : Config),
+    (opts.foldl (Opt.apply esc legacy) c).disableTargetInfo = (c.disableTargetInfo || opts.contains .withoutTargetInfo) ∧
+    (opts.foldl (Opt.apply esc legacy) c).withoutUnits = (c.withoutUnits || opts.contains .withoutUnits) ∧
+    (opts.foldl (Opt.apply esc legacy) c).withoutCounterSuffixes = (c.withoutCounterSuffixes || opts.contains .withoutCounterSuffixes) ∧
+    (opts.foldl (Opt.apply esc legacy) c).disableScopeInfo = (c.disableScopeInfo || opts.contains .withoutScopeInfo) := by
+  intro opts
+  induction opts with
+  | nil => intro c; simp
+  | cons o rest ih =>
+    intro c
+    obtain ⟨h1, h2, h3, h4⟩ := ih (Opt.apply esc legacy c o)
+    simp only [List.foldl_cons, h1, h2, h3, h4, List.contains_cons]
+    have hb : ∀ a c : Opt, (a == c) = decide (a = c) := fun _ _ => rfl
+    cases o <;> simp [Opt.apply, hb]
+
+/-- Option handling (newConfig + New): whatever options are given, in whatever order and however often, the collector's
+four switches are set exactly when the corresponding option occurs (order-independent, idempotent); options that
+configure the registerer or the reader touch none of them. -/
+theorem newConfig_flags (esc : Bytes → Bytes) (legacy : Bool) (opts : List Opt) :
+    (newConfig esc legacy opts).disableTargetInfo = opts.contains .withoutTargetInfo ∧
+    (newConfig esc legacy opts).withoutUnits = opts.contains .withoutUnits ∧
+    (newConfig esc legacy opts).withoutCounterSuffixes = opts.contains .withoutCounterSuffixes ∧
+    (newConfig esc legacy opts).disableScopeInfo = opts.contains .withoutScopeInfo := by
+  have := newConfig_fold_flags esc legacy opts {}
+  simpa [newConfig] using this
+
+/-- … and the namespace / resource filter are those of the LAST WithNamespace / WithResourceAsConstantLabels given (the
+namespace processed by WithNamespace: escaped in the legacy scheme, one trailing `_` ensured — `withNamespace_ok`). -/
+theorem newConfig_last_wins (esc : Bytes → Bytes) (legacy : Bool) (pre post : List Opt) :
+    (∀ ns, (∀ o ∈ post, ∀ n, o ≠ .withNamespace n) →
+      (newConfig esc legacy (pre ++ .withNamespace ns :: post)).ns = withNamespace esc legacy ns) ∧
+    (∀ d, (∀ o ∈ post, ∀ e, o ≠ .withResourceAsConstantLabels e) →
+      (newConfig esc legacy (pre ++ .withResourceAsConstantLabels d :: post)).resFilter = some d) := by
+  have keep : ∀ (post : List Opt) (c : Config),
+      ((∀ o ∈ post, ∀ n, o ≠ .withNamespace n) → (post.foldl (Opt.apply esc legacy) c).ns = c.ns) ∧
+      ((∀ o ∈ post, ∀ e, o ≠ .withResourceAsConstantLabels e) → (post.foldl (Opt.apply esc legacy) c).resFilter = c.resFilter) := by
+    intro post
+    induction post with
+    | nil => intro c; simp
+    | cons o rest ih =>
+      intro c
+      constructor
+      · intro h
+        rw [List.foldl_cons, (ih _).1 (fun o' ho' => h o' (List.mem_cons_of_mem _ ho'))]
+        cases o with
+        | withNamespace n => exact absurd rfl (h _ List.mem_cons_self n)
+        | _ => rfl
+      · intro h
+        rw [List.foldl_cons, (ih _).2 (fun o' ho' => h o' (List.mem_cons_of_mem _ ho'))]
+        cases o with
+        | withResourceAsConstantLabels d => exact absurd rfl (h _ List.mem_cons_self d)
+        | _ => rfl
+  constructor
+  · intro ns h
+    simp only [newConfig, List.foldl_append, List.foldl_cons]
+    rw [(keep post _).1 h]; rfl
+  · intro d h
+    simp only [newConfig, List.foldl_append, List.foldl_cons]
+    rw [(keep post _).2 h]; rfl
+
+/-- WithResourceAsConstantLabels(filter): the constant labels every series carries after the scope labels are the
+sanitised/merged resource attributes the filter accepts — all of those, nothing it rejects — and target_info is not
+affected (`target_info_as_configured`: it keeps every resource attribute). -/
+theorem resource_filter_applied (esc : Bytes → Bytes) (sc : Scenario) (s : Scope) :
+    Spec.extraKVs esc sc s =
+      (if sc.noScope then [] else [(scopeNameLabel, s.name), (scopeVersionLabel, s.version)]) ++
+      (if sc.resConst then getAttrs esc sc.cfg.legacy (constRes sc) else []) ∧
+    (∀ kv, kv ∈ constRes sc ↔ kv ∈ sc.res ∧ sc.resDeny.contains kv.1 = false) ∧
+    (sc.resDeny = [] → constRes sc = sc.res) := by
+  refine ⟨rfl, ?_, ?_⟩
+  · intro kv; simp [constRes, List.mem_filter]
+  · intro h; simp [constRes, h]
 
 /-- F34 (repaired in de0451a), documented on the OLD code: `validateMetricsOld` answered a description conflict whose
 first description is empty with help "", which the old call site read as "no conflict" — the second series kept its own
@@ -928,11 +1123,12 @@ def exScenario : Scenario :=
   ⟨⟨true, false, false, b "ns_"⟩, false, false, true, [(b "service.name", b "svc")],
    [⟨b "m", b "v1", [⟨.sumMono, b "req.total", b "s", b "d", [⟨[(b "a.b", b "2"), (b "a_b", b "1")], .num 20, []⟩]⟩,
                       ⟨.gauge, b "req", b "s", b "other", [⟨[], .num 8, []⟩]⟩,
-                      ⟨.hist, b "lat", b "ms", [], [⟨[], .hist 3 40 [0, 20] [1, 1, 1], []⟩]⟩]⟩]⟩
+                      ⟨.hist, b "lat", b "ms", [], [⟨[], .hist 3 40 [0, 20] [1, 1, 1], []⟩]⟩],
+     b "https://schema", [(b "tenant.id", b "a")]⟩], []⟩
 example : Spec.scenarioValid escUnderscore exScenario = true ∧ (gather (collect escUnderscore exScenario)).1 = false ∧
     (collect escUnderscore exScenario).map (·.name) =
       [b "target_info", b "otel_scope_info", b "ns_req_seconds_total", b "ns_req_seconds", b "ns_lat_milliseconds"] ∧
-    ((collect escUnderscore exScenario).map (·.labels.length)) = [1, 2, 4, 3, 3] := by decide
+    ((collect escUnderscore exScenario).map (·.labels.length)) = [1, 3, 4, 3, 3] := by decide
 example : Spec.pointDataValid (.hist 3 40 [0, 20] [1, 1, 1]) = true ∧ Spec.pointDataValid (.hist 3 40 [0, 20] [1, 1]) = false := by
   decide
 
@@ -951,5 +1147,31 @@ example : ((runScrapes escUnderscore (fun _ => []) [(0, exScenario), (1, { exSce
       (fun r => r.1 == 0)).map (fun r => r.2.map (·.name)) =
     [[b "target_info", b "otel_scope_info", b "ns_req_seconds_total", b "ns_req_seconds", b "ns_lat_milliseconds"],
      [b "target_info", b "otel_scope_info", b "ns_req_seconds_total", b "ns_req_seconds", b "ns_lat_milliseconds"]] := by decide
+
+-- caches across scrapes: scope A (tenant=a) is scraped alone, then scope B (same name and version, tenant=b) appears: the
+-- second scrape has two otel_scope_info series (3 labels each) — with caches (runSeq) and without (runSeqRef)
+def exSeqBase : Scenario := ⟨⟨false, false, false, []⟩, false, true, false, [], [], []⟩
+def exScopeA : Scope := ⟨b "lib", b "v1", [⟨.sumMono, b "a", [], [], [⟨[], .num 12, []⟩]⟩], [], [(b "tenant", b "a")]⟩
+def exScopeB : Scope := ⟨b "lib", b "v1", [⟨.sumMono, b "c", [], [], [⟨[], .num 20, []⟩]⟩], [], [(b "tenant", b "b")]⟩
+example : (runSeq escUnderscore exSeqBase (CState.init exSeqBase) [.notRegistered, .data [exScopeA], .data [exScopeA, exScopeB]]).map
+      (fun o => o.map (fun e => (e.name, e.labels.length))) =
+    [[], [(b "otel_scope_info", 3), (b "a_total", 2)],
+     [(b "otel_scope_info", 3), (b "a_total", 2), (b "otel_scope_info", 3), (b "c_total", 2)]] ∧
+    (gather (collectS escUnderscore { exSeqBase with scopes := [exScopeA, exScopeB] } (CState.init exSeqBase)).1).1 = false := by
+  decide
+-- NewSet: a scope attribute named otel_scope_name is overwritten by the scope's name
+example : scopeInfoAttrs ⟨b "lib", b "v1", [], [(b "otel_scope_name", b "x"), (b "tenant", b "a")]⟩ =
+    [(b "otel_scope_name", b "lib"), (b "otel_scope_version", b "v1"), (b "tenant", b "a")] := by decide
+-- a scope whose attribute key the registry refuses is remembered as invalid and skipped together with its instruments
+example : (runSeq escUnderscore exSeqBase (CState.init exSeqBase)
+      [.data [{ exScopeA with attrs := [(b "__reserved", b "x")] }], .data [{ exScopeA with attrs := [(b "__reserved", b "x")] }, exScopeB]]).map
+      (fun o => o.map (fun e => e.name)) = [[], [b "otel_scope_info", b "c_total"]] := by decide
+
+-- options: repeated and reordered options; the last namespace wins; a scenario built from them
+example : newConfig escUnderscore true [.withNamespace (b "a"), .withoutUnits, .other, .withNamespace (b "my.ns"), .withoutUnits,
+      .withResourceAsConstantLabels [b "r.a"]] =
+    { withoutUnits := true, ns := b "my_ns_", resFilter := some [b "r.a"] } := by decide
+example : constRes (Scenario.ofConfig false (newConfig escUnderscore false [.withResourceAsConstantLabels [b "r.a"]])
+      [(b "r.a", b "1"), (b "service.name", b "svc")] []) = [(b "service.name", b "svc")] := by decide
 
 end Otel.C18
